@@ -26,9 +26,9 @@ pub fn def() -> PropDef {
 fn plan(tier: Tier) -> Vec<Unit> {
     match tier {
         Tier::Quick => {
-            let mut v = crate::util::split_budget("sets", 24_000, 500);
-            v.extend(crate::util::split_budget("zeros", 1_600, 100));
-            v.extend(crate::util::split_budget("hashset", 400, 25));
+            let mut v = crate::util::split_budget("sets", 48_000, 500);
+            v.extend(crate::util::split_budget("zeros", 8_000, 200));
+            v.extend(crate::util::split_budget("hashset", 2_000, 50));
             v
         }
         Tier::Thorough => {
@@ -99,21 +99,33 @@ fn gen_set(r: &mut Rng, lmax: usize) -> Vec<Dec> {
         let z = r.below(30);
         base = Dec::new(&base.n * pow10(z), base.s + r.range(-20, 20));
     }
-    if r.chance(1, 8) {
+    if r.chance(1, 8) && !cfg!(miri) {
         base.s = r.range(-3000, 3000);
     }
-    if r.chance(1, 200) {
+    if r.chance(1, 200) && !cfg!(miri) {
         base.s = r.range(-100_000, 100_000);
         base.n = BigInt::from(r.range(1, 999));
     }
     let mut set = vec![base.clone()];
+    if !cfg!(miri) && r.chance(1, 160) {
+        // negative scales around 2^15 / 2^16 / 10^5, with representations on both sides of the boundary
+        let b = *r.pick(&[32_768i64, 65_536, 65_535, 65_537, 70_000, 99_990]);
+        base.s = -(b + r.range(-3, 3));
+        base.n = BigInt::from(r.range(1, 99_999));
+        set = vec![base.clone()];
+        for k in [r.range(1, 10), r.range(1, 4000), (b - 60_000).max(1)] {
+            set.push(Dec::new(&base.n * pow10(k as u64), base.s + k));
+        }
+        set.push(Dec::new(&base.n * pow10((-base.s) as u64), 0));
+        return set;
+    }
     let n = 2 + r.below(4);
     for _ in 0..n {
         let k = match r.below(5) {
             0 => r.below(41),
             1 => (base.s.max(0) as u64) + r.below(5),
             2 => r.below(4),
-            3 => r.below(2000),
+            3 => if cfg!(miri) { r.below(60) } else { r.below(2000) },
             _ => r.below(100),
         };
         set.push(Dec::new(&base.n * pow10(k), base.s + k as i64));
